@@ -579,7 +579,7 @@ Section HashIndep.
       cbn [new_slot fst snd]. rewrite Hlen.
       split; [apply sim_app; [exact HS|apply rsim_refl]|reflexivity].
     - (* NewThreaded *)
-      destruct (isize_max <? cap); [same HS|].
+      destruct (lf_cap_max <? cap); [same HS|].
       cbn [new_slot fst snd]. rewrite Hlen.
       split; [apply sim_app; [exact HS|reflexivity]|reflexivity].
   Qed.
